@@ -298,9 +298,13 @@ func cmdCheck(args []string) int {
 		},
 		"assumptions": append(keys(acc.Assumed), globalAssumptions()...),
 	}
-	os.MkdirAll(filepath.Join(verifDir, "evidence"), 0o755)
+	evDir := filepath.Join(verifDir, "evidence")
+	if d := os.Getenv("VERIF_EVIDENCE"); d != "" {
+		evDir = d // scratch runs (seeded changes) do not overwrite the evidence of the real tree
+	}
+	os.MkdirAll(evDir, 0o755)
 	b, _ := json.MarshalIndent(ev, "", " ")
-	os.WriteFile(filepath.Join(verifDir, "evidence", *prop+".json"), b, 0o644)
+	os.WriteFile(filepath.Join(evDir, *prop+".json"), b, 0o644)
 
 	fmt.Printf("property %s: %d obligations, %d discharged, %d known findings, %d undecided, %d violations, canaries %d/%d, %.1fs\n",
 		*prop, acc.Total, acc.Discharged, acc.KnownHits, len(acc.Undecided), acc.Violations, acc.CanariesOK, acc.Canaries, wall)
